@@ -1837,6 +1837,66 @@ void chk_container_join(char const *kn, C &, seq const &s)
   VF_COUNT("judged/join");
 }
 
+// join of NON-CONST lvalues of a type whose move is visible (std::string), up to five operands, the same container named
+// several times: the obvious loop only reads its operands, so the result is the concatenation and every operand is
+// what it was
+template <class C>
+void chk_container_join_strings(char const *kn, seq const &s)
+{
+  if (!start(kn, s))
+    return;
+  auto str = [](int v) { return std::string("element-number-") + std::to_string(v) + "-long-enough-to-live-on-the-heap"; };
+  auto mk = [&](std::size_t a, std::size_t b) {
+    C c;
+    for (std::size_t i = a; i < b; ++i)
+      c.push_back(str(s[i]));
+    return c;
+  };
+  auto cat = [](std::initializer_list<C const *> parts) {
+    std::vector<std::string> r;
+    for (C const *p : parts)
+      r.insert(r.end(), p->begin(), p->end());
+    return r;
+  };
+  auto vec = [](C const &c) { return std::vector<std::string>(c.begin(), c.end()); };
+  std::size_t const n = s.size();
+  for (std::size_t k = 0; k <= n; ++k)
+  {
+    C a = mk(0, k), b = mk(k, n), sep = mk(0, std::min<std::size_t>(n, 1));
+    C const a0 = a, b0 = b, sep0 = sep;
+    auto unchanged = [&](char const *what) {
+      expect(vec(a) == vec(a0) && vec(b) == vec(b0) && vec(sep) == vec(sep0), true, "join", kn, "lvalue-operand-modified", what);
+    };
+    {
+      lib();
+      C const got = fcppt::container::join(a, b, a);
+      expect(vec(got) == cat({&a0, &b0, &a0}), true, "join", kn, "three-lvalues-one-repeated", par("split", static_cast<unsigned>(k)));
+      unchanged("join(a,b,a)");
+    }
+    {
+      lib();
+      C const got = fcppt::container::join(a, a, a, a);
+      expect(vec(got) == cat({&a0, &a0, &a0, &a0}), true, "join", kn, "same-lvalue-four-times", par("split", static_cast<unsigned>(k)));
+      unchanged("join(a,a,a,a)");
+    }
+    {
+      lib();
+      C const got = fcppt::container::join(a, sep, b, sep, a);
+      expect(vec(got) == cat({&a0, &sep0, &b0, &sep0, &a0}), true, "join", kn, "five-lvalues-separator-repeated", par("split", static_cast<unsigned>(k)));
+      unchanged("join(a,sep,b,sep,a)");
+    }
+    {
+      lib();
+      C const got = fcppt::container::join(C(a), b, C(sep), b);
+      expect(vec(got) == cat({&a0, &b0, &sep0, &b0}), true, "join", kn, "rvalues-and-lvalues-mixed", par("split", static_cast<unsigned>(k)));
+      unchanged("join(C(a),b,C(sep),b)");
+    }
+    VF_COUNT("join/string-lvalues-repeated");
+  }
+  VF_COUNT("judged/join");
+  finish();
+}
+
 // associative containers: join inserts the other containers into the first
 template <class S>
 void chk_container_join_assoc(char const *kn, seq const &s)
@@ -2690,6 +2750,11 @@ void vf_slice_12()
 void vf_slice_13()
 {
   run(seq_rw{}, "container/join", L(), LIFT(chk_container_join));
+  for_seqs("container/join(strings)", std::min(L(), 5U), [](seq const &s) {
+    chk_container_join_strings<std::vector<std::string>>("vector<string>", s);
+    chk_container_join_strings<std::list<std::string>>("list<string>", s);
+    chk_container_join_strings<std::deque<std::string>>("deque<string>", s);
+  }, true);
   for_seqs("container/join(associative)", L(), [](seq const &s) {
     chk_container_join_assoc<std::set<int>>("set", s);
     chk_container_join_assoc<std::multiset<int>>("multiset", s);
@@ -2910,7 +2975,7 @@ void body()
         "map_iteration/all-erased", "split_string/empty-string", "split_string/no-delimiter",
         "split_string/delimiter-at-both-ends", "split_string/delimiter-at-end", "split_string/delimiter-at-start",
         "split_string/consecutive-delimiters", "join_strings/inverse-of-split", "join_strings/no-fields",
-        "join_strings/one-field", "join/an-empty-operand", "join/non-empty-operands", "at_optional/in-range",
+        "join_strings/one-field", "join/an-empty-operand", "join/non-empty-operands", "join/string-lvalues-repeated", "at_optional/in-range",
         "at_optional/index-equals-size", "at_optional/beyond-size", "find_opt_mapped/found", "find_opt_mapped/absent",
         "get_or_insert/found", "get_or_insert/inserted", "get_or_insert/throwing-create", "set_difference/proper-non-empty",
         "set_ops/incomparable-operands", "array::from_range/size-matches", "array::from_range/source-longer",
